@@ -530,6 +530,8 @@ class Interp:
                 raise PyRaise("TypeError")  # numpy: heaviside() takes from 2 to 3 positional arguments
             if name == "ones" and len(vs) == 1 and isinstance(vs[0], Opaque) and vs[0].what == "gshape":
                 return G(ONE)
+            if name == "maximum" and len(vs) == 2 and all(isinstance(v, (Arr, Sc)) for v in vs) and any(isinstance(v, Arr) for v in vs):
+                return Arr(("ifgt", vs[1].e, vs[0].e, vs[1].e, vs[0].e))  # entries of the second argument where they are larger
             if name == "ones_like" and len(vs) == 1 and isinstance(vs[0], Arr):
                 return Arr(ONE)
             if name == "zeros_like" and len(vs) == 1 and isinstance(vs[0], Arr):
@@ -613,7 +615,20 @@ EXPECT_INIT = """def initAdArrays(variables):
 
 ARITH = ["add", "radd", "sub", "rsub", "mul", "rmul", "pow", "rpow", "truediv", "rtruediv", "matmul", "rmatmul"]
 KINDS = ["S", "A", "Ad", "Sp"]
-HAND_MODELLED = {"l2_norm", "maximum"}
+# l2_norm: the numerical statements are translated; the index bookkeeping that places factor k of group g in row g, column dim*g+k
+# (the "contract consecutive groups of dim rows" structure of NormRule in Model.lean) must have exactly this text.
+EXPECT_L2_TAIL = """dim_size = var.val.size
+assert dim_size % dim == 0
+size = int(dim_size / dim)
+local_inds_t = np.arange(dim_size)
+if size == 0:
+    local_inds_n = np.empty(0, dtype=np.int32)
+else:
+    local_inds_n = np.array(np.kron(np.arange(size), np.ones(dim)), dtype=np.int32)
+norm_jac = sps.csr_matrix((jac_vals.ravel('F'), (local_inds_n, local_inds_t)), shape=(size, dim_size))
+jac = norm_jac * var.jac
+return pp.ad.AdArray(vals, jac)"""
+
 
 
 def _self_ad():
@@ -671,11 +686,15 @@ def translate(repo, out_path):
         for kind in KINDS:
             name = f"{a}_{kind}"
             lines_of[name] = f"forward_mode.py:{methods[f'__{a}__'].lineno} AdArray.__{a}__, other = {kind}"
+            sa, ot = _self_ad(), _other(kind)
             try:
-                res = ip.method(_self_ad(), f"__{a}__", [_other(kind)])
+                res = ip.method(sa, f"__{a}__", [ot])
             except PyRaise as e:
                 raising.append((name, e.kind))
                 continue
+            for o, root, v in ((sa, "self", 0), (ot, "other", 1)):
+                if isinstance(o, Ad) and (o.val.e != ("var", v) or o.jac.coef != {root: None}):
+                    raise TranslateError(f"AdArray.__{a}__ alters the value or Jacobian of an operand")
             if a == "rmatmul" and kind == "Sp":
                 ok = isinstance(res, tuple) and res[0] == "matmul" and res[1].m == "other" and res[2].m == "other" \
                     and res[1].e == ("var", 0) and res[2].coef == {"self": None}
@@ -693,15 +712,124 @@ def translate(repo, out_path):
     lines_of["neg"] = f"forward_mode.py:{methods['__neg__'].lineno} AdArray.__neg__"
     arith_rules = rules + [r]
 
-    # -- library
-    lib_rules, skipped = [], []
-    for name, fdef in functions.items():
-        if name in HAND_MODELLED:
-            skipped.append(name)
+    # -- library: every top-level function / class of functions.py must get a rule (coverage obligation)
+    lib_rules, max_rules, plain_raising = [], [], []
+    found = [n.name for n in fn.body if isinstance(n, (ast.FunctionDef, ast.ClassDef))]
+    classes = {n.name: n for n in fn.body if isinstance(n, ast.ClassDef)}
+    exported = []
+    for n in fn.body:
+        if isinstance(n, ast.Assign) and ast.unparse(n.targets[0]) == "__all__":
+            exported = [e.value for e in n.value.elts]
+    for nm in exported:
+        if nm not in found:
+            raise TranslateError(f"__all__ exports {nm}, which is not defined at the top level of functions.py")
+
+    def untouched(what, *ops):
+        for o, root, v in ops:
+            if isinstance(o, Ad) and (o.val.e != ("var", v) or o.jac.coef != {root: None}):
+                raise TranslateError(f"{what} alters the value or Jacobian of an AdArray it was given (in-place modification of an operand)")
+            if isinstance(o, Arr) and o.e != ("var", v):
+                raise TranslateError(f"{what} alters a numpy array it was given")
+
+    def lib_rule(name, fdef, call_ad, call_plain, others, params):
+        try:
+            res = call_ad()
+        except PyRaise as e:
+            raise TranslateError(f"functions.{name} raises {e.kind} on an AdArray")
+        r = _rule_from(res, f"functions.{name}", False)
+        try:
+            plain = call_plain()
+            if not isinstance(plain, Arr):
+                raise TranslateError(f"functions.{name}: ndarray branch returns {type(plain).__name__}")
+            r["plain"] = plain.e
+        except PyRaise as e:
+            plain_raising.append((name, e.kind))
+        r["name"] = name
+        r["params"] = others
+        lines_of[name] = f"functions.py:{fdef.lineno} {name}({', '.join(params)})"
+        return r
+
+    norm_rule = None
+    for name in found:
+        if name == "maximum":
+            fdef = functions[name]
+            for kind, mk in (("AdAd", lambda sa: (sa, _other("Ad"))), ("AdA", lambda sa: (sa, _other("A"))), ("AdS", lambda sa: (sa, _other("S"))),
+                             ("AAd", lambda sa: (_other("A"), sa)), ("SAd", lambda sa: (_other("S"), sa))):
+                sa = _self_ad()
+                v0, v1 = mk(sa)
+                rn = f"maximum_{kind}"
+                try:
+                    res = ip.call_def(fdef, [v0, v1], f"functions.{rn}")
+                except PyRaise as e:
+                    raise TranslateError(f"functions.{rn} raises {e.kind}")
+                untouched(f"functions.{rn}", (v0, "self" if v0 is sa else "other", 0 if v0 is sa else 1), (v1, "self" if v1 is sa else "other", 0 if v1 is sa else 1))
+                r = _rule_from(res, f"functions.{rn}", kind == "AdAd")
+                r["name"] = rn
+                lines_of[rn] = f"functions.py:{fdef.lineno} maximum(var_0, var_1), operands {kind}"
+                max_rules.append(r)
+            pl = ip.call_def(fdef, [Arr(("var", 0)), Arr(("var", 1))], "functions.maximum (ndarrays)")
+            if not isinstance(pl, Arr) or pl.e != max_rules[0]["val"]:
+                raise TranslateError("functions.maximum of two numpy arrays is not the value computed for AdArrays")
+            for r in max_rules:
+                r["plain"] = r["val"]
             continue
+        if name == "l2_norm":
+            fdef = functions[name]
+            body = _strip_doc(fdef.body)
+            cut = [i for i, st in enumerate(body) if ast.unparse(st).startswith("dim_size = ")]
+            if [a.arg for a in fdef.args.args] != ["dim", "var"] or len(cut) != 1 or "\n".join(ast.unparse(st) for st in body[cut[0]:]) != EXPECT_L2_TAIL:
+                raise TranslateError("l2_norm: the index bookkeeping (rows = kron(arange(size), ones(dim)), cols = arange(dim_size), data = jac_vals.ravel('F')) changed")
+            # dim == 1: delegates to abs
+            sa = _self_ad()
+            res1 = ip.call_def(fdef, [IntSym(True), sa], "functions.l2_norm (dim = 1)")
+            untouched("functions.l2_norm", (sa, "self", 0))
+            r1 = _rule_from(res1, "functions.l2_norm (dim = 1)", False)
+            r1["name"], r1["params"] = "l2_norm_dim1", []
+            lines_of["l2_norm_dim1"] = f"functions.py:{fdef.lineno} l2_norm(dim, var) with dim == 1"
+            # dim >= 2: value and Jacobian factors per group
+            sa = _self_ad()
+            env = {"dim": IntSym(False), "var": sa}
+            if ip.block(body[:cut[0]], env) is not None:
+                raise TranslateError("l2_norm returned before the Jacobian was assembled")
+            vals, jv = env.get("vals"), env.get("jac_vals")
+            untouched("functions.l2_norm", (sa, "self", 0))
+            if not (isinstance(vals, GS) and isinstance(jv, G)):
+                raise TranslateError("l2_norm: vals / jac_vals are not the per-group norm and the (dim, size) factor array")
+            pl = ip.call_def(fdef, [IntSym(False), Arr(("var", 0))], "functions.l2_norm (ndarray)")
+            if not isinstance(pl, GS):
+                raise TranslateError("l2_norm of a numpy array is not a per-group number")
+            pl1 = ip.call_def(fdef, [IntSym(True), Arr(("var", 0))], "functions.l2_norm (ndarray, dim = 1)")
+            if not (isinstance(pl1, GS) and pl1.e == pl.e):
+                raise TranslateError("l2_norm of a numpy array depends on dim == 1")
+            r1["plain"] = None
+            norm_rule = {"name": "l2_norm", "val": vals.e, "coef": jv.e, "plain": pl.e}
+            lines_of["l2_norm"] = f"functions.py:{fdef.lineno} l2_norm(dim, var), dim >= 2: var 0 = one entry of a group, var 1 = the group's sum of squares"
+            lib_rules.append({k: v for k, v in r1.items() if k != "plain"})
+            continue
+        if name in classes:
+            if name != "RegularizedHeaviside":
+                raise TranslateError(f"class {name} in functions.py has no rule")
+            cdef = classes[name]
+            meths = {n.name: n for n in cdef.body if isinstance(n, ast.FunctionDef)}
+            if sorted(meths) != ["__call__", "__init__"] or _norm_src(meths["__init__"]) != "def __init__(self, regularization):\n    self._regularization = regularization":
+                raise TranslateError("RegularizedHeaviside: unexpected methods / constructor")
+            call = meths["__call__"]
+            if [a.arg for a in call.args.args] != ["self", "var", "zerovalue"]:
+                raise TranslateError("RegularizedHeaviside.__call__: unexpected signature")
+            # instance with regularization = partial(heaviside_smooth, eps=var 1); zerovalue = var 2
+            sa = _self_ad()
+            r = lib_rule("regularized_heaviside", call,
+                         lambda: ip.call_def(call, [RegObj("heaviside_smooth", [Sc(("var", 1))]), sa, Sc(("var", 2))], "RegularizedHeaviside.__call__"),
+                         lambda: ip.call_def(call, [RegObj("heaviside_smooth", [Sc(("var", 1))]), Arr(("var", 0)), Sc(("var", 2))], "RegularizedHeaviside.__call__ (ndarray)"),
+                         ["eps", "zerovalue"], ["self", "var", "zerovalue"])
+            untouched("RegularizedHeaviside.__call__", (sa, "self", 0))
+            lines_of["regularized_heaviside"] = f"functions.py:{call.lineno} RegularizedHeaviside(partial(heaviside_smooth, eps=eps)).__call__(var, zerovalue)"
+            lib_rules.append(r)
+            continue
+        fdef = functions[name]
         params = [a.arg for a in fdef.args.args]
         if "var" not in params:
-            raise TranslateError(f"functions.{name}: no parameter called var")
+            raise TranslateError(f"functions.{name}: no parameter called var; no rule can be generated for it")
         others = [p for p in params if p != "var"]
         if len(others) > 3:
             raise TranslateError(f"functions.{name}: too many parameters")
@@ -709,19 +837,16 @@ def translate(repo, out_path):
         def mk(varval):
             return [varval if p == "var" else Sc(("var", 1 + others.index(p))) for p in params]
 
-        try:
-            res = ip.call_def(fdef, mk(_self_ad()), f"functions.{name}")
-            plain = ip.call_def(fdef, mk(Arr(("var", 0))), f"functions.{name} (ndarray)")
-        except PyRaise as e:
-            raise TranslateError(f"functions.{name} raises {e.kind} on an AdArray")
-        r = _rule_from(res, f"functions.{name}", False)
-        if not isinstance(plain, Arr):
-            raise TranslateError(f"functions.{name}: ndarray branch returns {type(plain).__name__}")
-        r["plain"] = plain.e
-        r["name"] = name
-        r["params"] = others
-        lines_of[name] = f"functions.py:{fdef.lineno} {name}({', '.join(params)})"
+        sa, pa = _self_ad(), Arr(("var", 0))
+        r = lib_rule(name, fdef, lambda: ip.call_def(fdef, mk(sa), f"functions.{name}"), lambda: ip.call_def(fdef, mk(pa), f"functions.{name} (ndarray)"), others, params)
+        untouched(f"functions.{name}", (sa, "self", 0), (pa, "self", 0))
         lib_rules.append(r)
+    if norm_rule is None or not max_rules:
+        raise TranslateError("functions.py no longer defines l2_norm / maximum")
+    covered = {"maximum": [r["name"] for r in max_rules], "l2_norm": ["l2_norm", "l2_norm_dim1"], "RegularizedHeaviside": ["regularized_heaviside"]}
+    for nm in found:
+        if nm not in covered and nm not in [r["name"] for r in lib_rules]:
+            raise TranslateError(f"functions.{nm} has no rule")
 
     # -- emit
     def rule_lean(r):
@@ -735,14 +860,24 @@ def translate(repo, out_path):
            "One `Rule` per (method, operand kind) / library function:  val = f(self.val, other),",
            "jac = diag(dself) @ self.jac + diag(dother) @ other.jac.   var 0 = self.val, var 1 = other / first parameter.",
            "-/", "import PorepyVerif.C01.Model", "namespace PorepyVerif.C01.Gen", ""]
-    for r in arith_rules + lib_rules:
+    for r in arith_rules + lib_rules + max_rules:
         out.append(f"/-- {lines_of[r['name']]} -/")
         out.append(f"def {r['name']} : Rule :=\n  {rule_lean(r)}")
         out.append("")
+    out.append(f"/-- {lines_of['l2_norm']} -/")
+    out.append("def l2_norm : NormRule :=\n  { name := \"l2_norm\",\n    val := " + lean(norm_rule["val"]) + ",\n    coef := " + lean(norm_rule["coef"])
+               + ",\n    plain := some " + lean(norm_rule["plain"]) + " }")
+    out.append("")
     out.append("/-- arithmetic rules, in source order -/")
     out.append("def arith : List Rule := [" + ", ".join(r["name"] for r in arith_rules) + "]")
     out.append("/-- library functions, in source order -/")
     out.append("def lib : List Rule := [" + ", ".join(r["name"] for r in lib_rules) + "]")
+    out.append("/-- maximum(var_0, var_1) per operand kinds (AdArray / numpy array / python scalar) -/")
+    out.append("def maxrules : List Rule := [" + ", ".join(r["name"] for r in max_rules) + "]")
+    out.append("/-- every function / class defined at the top level of functions.py, in source order (each has a rule above) -/")
+    out.append("def functions_found : List String := [" + ", ".join(f'"{n}"' for n in found) + "]")
+    out.append("/-- library functions whose numpy-array branch raises -/")
+    out.append("def plain_raising : List (String × String) := [" + ", ".join(f'("{n}", "{k}")' for n, k in plain_raising) + "]")
     out.append("/-- operand combinations that raise -/")
     out.append("def raising : List (String × String) := [" + ", ".join(f'("{n}", "{k}")' for n, k in raising) + "]")
     out.append("/-- `M @ AdArray` for sparse `M` is `AdArray(M @ val, M @ jac)`; `__getitem__` and `initAdArrays` have the text the hand-written model mirrors -/")
@@ -758,16 +893,20 @@ def translate(repo, out_path):
     return {
         # one generated proof obligation per rule: its `rule_sound_<name>` theorem in Props.lean (48 of them are audited through
         # the two bundle theorems lib_rules_sound / arith_rules_sound, safe_power through rule_sound_safe_power)
-        "obligations": len(arith_rules) + len(lib_rules),
-        "rules": len(arith_rules) + len(lib_rules),
+        "obligations": len(arith_rules) + len(lib_rules) + len(max_rules) + 1,
+        "rules": len(arith_rules) + len(lib_rules) + len(max_rules) + 1,
+        "maximum": [r["name"] for r in max_rules],
+        "functions_found": found,
+        "plain_raising": plain_raising,
+        "asserts_skipped": sorted(set(ip.asserts)),
         "arith": [r["name"] for r in arith_rules],
         "lib": [r["name"] for r in lib_rules],
-        "lib_params": {r["name"]: r["params"] for r in lib_rules},
+        "lib_params": {r["name"]: r.get("params", []) for r in lib_rules},
         "raising": raising,
-        "hand_modelled": skipped + ["__getitem__", "initAdArrays", "RegularizedHeaviside"],
+        "hand_modelled": ["__getitem__", "initAdArrays", "the group/row index bookkeeping of l2_norm (text pinned)"],
         "guards_assumed_to_pass": sorted(set(ip.guards)),
         "changed": old != text,
-        "rule_terms": {r["name"]: {k: to_json(r[k]) for k in ("val", "dself", "dother", "plain") if k in r} for r in arith_rules + lib_rules},
+        "rule_terms": {r["name"]: {k: to_json(r[k]) for k in ("val", "dself", "dother", "plain") if k in r} for r in arith_rules + lib_rules + max_rules},
     }
 
 
